@@ -303,6 +303,40 @@ func propC19(a *Analysis, r *Registry) {
 				n++
 				b.Eq(rB, name+"/advance#"+itoa(n), a.W.InstrPos(ifi), xn, e, "idom[x]")
 			}
+			if n != 2 && len(fc.Ctx.Loops()) == 1 {
+				// one loop moving, per iteration, the finger with the smaller post-order number one step
+				// (the same step sequence as the two inner loops)
+				mark := len(r.Obs)
+				vars := b.LoopSystem(rB, name+"/two-fingers", b.pos(fn), fc, rv, env, []recSpec{
+					{"x", "b1", "ite(poNum[x]<poNum[y], idom[x], x)"},
+					{"y", "b2", "ite(poNum[x]<poNum[y], y, ite(poNum[y]<poNum[x], idom[y], y))"},
+				})
+				if vars == nil {
+					r.Obs = r.Obs[:mark]
+					vars = b.LoopSystem(rB, name+"/two-fingers", b.pos(fn), fc, rv, env, []recSpec{
+						{"x", "b1", "ite(poNum[y]<poNum[x], x, ite(poNum[x]<poNum[y], idom[x], x))"},
+						{"y", "b2", "ite(poNum[y]<poNum[x], idom[y], y)"},
+					})
+				}
+				if vars != nil {
+					hdr := X.phiOf[vars["x"].SingleAtom().ID].Block()
+					e := X.EnvFor(fn, "idom", "poNum", "b1", "b2")
+					e.Set("x", vars["x"], nil)
+					e.Set("y", vars["y"], nil)
+					_, gc, _, msg := b.loopGuard(fc, hdr)
+					if msg == "" {
+						b.Eq(rB, name+"/until-equal", b.pos(fn), gc, e, "x!=y")
+					} else {
+						r.Fail(rB, name+"/until-equal", b.pos(fn), msg)
+					}
+					if rv.Equal(vars["x"]) || rv.Equal(vars["y"]) {
+						r.OK(rB, name+"/result", b.pos(fn), "returns the meeting point")
+					} else {
+						r.Fail(rB, name+"/result", b.pos(fn), "does not return one of the fingers")
+					}
+				}
+				return
+			}
 			if n != 2 {
 				r.Fail(rB, name+"/two-fingers", b.pos(fn), "expected two inner loops, each advancing the finger with the smaller post-order number")
 			} else {
